@@ -38,6 +38,18 @@ func itoa(n int) string {
 	return string(buf[i:])
 }
 
+// out prints one result line. Long lines are printed in pieces ending with a
+// backslash (the harness joins them): the reference toolchain's println is one
+// write(2) per string, and a write of more than PIPE_BUF bytes to a pipe can be
+// cut short by a signal, which would lose part of a line of the guard.
+func out(s string) {
+	for len(s) > 1500 {
+		println(s[:1500] + "\\")
+		s = s[1500:]
+	}
+	println(s)
+}
+
 func b01(b bool) string {
 	if b {
 		return "1"
@@ -227,13 +239,13 @@ func runStr(cs []sc) {
 		c := &cs[i]
 		lit := c.lit
 		r1 := rt(c.l)
-		println(tryS(func() string { return lineA(lit) }))
-		println(tryS(func() string { return lineA(r1) }))
-		println(tryS(func() string { return lineB(lit) }))
-		println(tryS(func() string { return lineB(r1) }))
-		println(tryS(func() string { return lineC(lit, c.ix, c.prs, c.bnd) }))
-		println(tryS(func() string { return lineC(r1, c.ix, c.prs, c.bnd) }))
-		println(tryS(func() string { return lineD(lit, r1, rtcat(c.l)) }))
+		out(tryS(func() string { return lineA(lit) }))
+		out(tryS(func() string { return lineA(r1) }))
+		out(tryS(func() string { return lineB(lit) }))
+		out(tryS(func() string { return lineB(r1) }))
+		out(tryS(func() string { return lineC(lit, c.ix, c.prs, c.bnd) }))
+		out(tryS(func() string { return lineC(r1, c.ix, c.prs, c.bnd) }))
+		out(tryS(func() string { return lineD(lit, r1, rtcat(c.l)) }))
 	}
 }
 
@@ -251,7 +263,7 @@ type grp struct {
 func runGrp(gs []grp) {
 	for i := range gs {
 		g := &gs[i]
-		println(tryS(func() string {
+		out(tryS(func() string {
 			o := ""
 			for _, p := range g.probes {
 				x := rt(p)
@@ -266,7 +278,7 @@ func runGrp(gs []grp) {
 			}
 			return "m " + sec(o, itoa(len(g.m)))
 		}))
-		println(tryS(func() string {
+		out(tryS(func() string {
 			d := map[string]int{}
 			for j, k := range g.keys {
 				d[rtcat(k)] = j
@@ -297,7 +309,7 @@ func runPair(smp []ps) {
 	for i := range smp {
 		for j := range smp {
 			a, b := &smp[i], &smp[j]
-			println(tryS(func() string {
+			out(tryS(func() string {
 				ar, br := rt(a.l), rt(b.l)
 				return "p " + sec(ops6(a.lit, br), ops6(ar, b.lit), bl(a.lit+br), itoa(len(ar+b.lit)))
 			}))
@@ -310,7 +322,7 @@ func runRunes(rs []rune) {
 	for i := range rs {
 		for j := range rs {
 			r1, r2 := rs[i], rs[j]
-			println(tryS(func() string {
+			out(tryS(func() string {
 				s := string([]rune{r1, r2})
 				return "q " + sec(bl(s), rl([]rune(s)), bl(string(r1)+string(r2)))
 			}))
@@ -330,7 +342,7 @@ type lg struct {
 func runLong(ls []lg) {
 	for i := range ls {
 		c := &ls[i]
-		println(tryS(func() string {
+		out(tryS(func() string {
 			bs := make([]byte, c.n+3)
 			for k := 0; k < c.n; k++ {
 				bs[k+3] = c.pat[k%len(c.pat)]
